@@ -72,8 +72,8 @@ func parseReply(s string) (*replyShape, bool) {
 		return nil, false
 	}
 	rs := &replyShape{raw: s, pre: s[:len(s)-1], form: s[len(s)-1]}
-	if !strings.ContainsRune(replyForms, rune(rs.form)) {
-		return nil, false
+	if !strings.ContainsRune(replyForms, rune(rs.form)) && rs.form != '0' {
+		return nil, false // (form 0: no error element at all — not in replyForms, generated separately)
 	}
 	for _, c := range rs.pre {
 		if !strings.ContainsRune(replyPre, c) {
@@ -128,6 +128,9 @@ func (rs *replyShape) xml(ns string, leave bool) string {
 		case 's':
 			sb.WriteString(`<status>bye</status>`)
 		}
+	}
+	if rs.form == '0' {
+		return sb.String() // a type='error' presence without an error element
 	}
 	typ, cond := rs.want(leave)
 	attrs, text := "", ""
